@@ -122,7 +122,8 @@ TraceComputeOk ==
             (/\ Abs(Ev.scaled.aref - 4 * Ev.head.aref) <= 4 + Ev.head.aref \div 2000
              /\ Abs(Ev.scaled.vgross - 8 * Ev.head.vgross) <= 8 + Ev.head.vgross \div 1000
              /\ Abs(Ev.scaled.vnet - 8 * Ev.head.vnet) <= 8 + Ev.head.vnet \div 1000 + (4 * Ev.head.aref) \div 10
-             /\ Abs(Ev.scaled.compact - 2 * Ev.head.compact) <= 4 + Ev.head.compact \div 1000))
+             \* (compactness is formed with the volume rounded to 0.01 m3: half a unit of it, relative to the volume, is part of the tolerance)
+             /\ Abs(Ev.scaled.compact - 2 * Ev.head.compact) <= 4 + Ev.head.compact \div 1000 + (2 * Ev.head.compact) \div (IF Ev.head.vgross > 0 THEN Ev.head.vgross ELSE 1)))
   /\ Chk("C16", "PurgeChangesNoIndicator", (Ev.same_as_last /\ last # <<>>) => Headline(Ev) = last)
   /\ last' = Headline(Ev)
 
